@@ -1,4 +1,5 @@
 import ServlinVerif.Props.C18
+import ServlinVerif.Model.LoggerWorld
 /-
   C18 over whole histories: the process-global logger state and the per-thread tag lists as one
   transition system, for every interleaving of the operations of any number of threads.
@@ -16,54 +17,7 @@ import ServlinVerif.Props.C18
 -/
 namespace Servlin
 namespace C18W
-open JsonModel LoggerModel
-
-inductive G where
-  | none
-  | installed (id : Nat) (alive : Bool)
-  | default
-deriving Repr, DecidableEq
-
-inductive Op where
-  | addTag (t : Nat) (tag : Tag)
-  | clear (t : Nat)
-  | log (t : Nat) (level : Level) (tags : List Tag)
-  | setLogger
-  | dropGuard
-  | dropReceiver
-deriving Repr, DecidableEq
-
-/-- Where one logging call went. -/
-inductive Outcome where
-  | toLogger (id : Nat) (e : Event)
-  | toDefault (e : Event)
-  | stopped
-deriving Repr, DecidableEq
-
-structure World where
-  g : G := .none
-  nextId : Nat := 0
-  tags : Nat → List Tag := fun _ => []
-  out : List (Nat × Outcome) := []      -- (calling thread, outcome), one entry per logging call
-
-def step (w : World) : Op → World
-  | .addTag t tag => { w with tags := fun x => if x = t then w.tags t ++ [tag] else w.tags x }
-  | .clear t => { w with tags := fun x => if x = t then [] else w.tags x }
-  | .setLogger =>
-    match w.g with
-    | .installed .. => w                                   -- `Err(GlobalLoggerAlreadySetError)`
-    | _ => { w with g := .installed w.nextId true, nextId := w.nextId + 1 }
-  | .dropGuard => match w.g with | .installed .. => { w with g := .none } | _ => w
-  | .dropReceiver => match w.g with | .installed id _ => { w with g := .installed id false } | _ => w
-  | .log t level tags =>
-    let e := LoggerModel.log (w.tags t) level tags
-    match w.g with
-    | .installed id true => { w with out := w.out ++ [(t, .toLogger id e)] }
-    | .installed _ false => { w with out := w.out ++ [(t, .stopped)] }
-    | .default => { w with out := w.out ++ [(t, .toDefault e)] }
-    | .none => { w with g := .default, out := w.out ++ [(t, .toDefault e)] }   -- starts the stdout default
-
-def run (w : World) (ops : List Op) : World := ops.foldl step w
+open JsonModel LoggerModel LoggerWorld
 
 def isLog : Op → Bool
   | .log .. => true
